@@ -218,6 +218,14 @@ class Repo:
             unknown = [k for k in cands if k[len(pre):].split('#')[0] not in known_names()]
             if len(unknown) == 1:
                 return self.funcs[unknown[0]]
+            # ... or the nested function moved, with the statements around it, into a helper the checker
+            # does not know (which is evaluated in place where the parent calls it)
+            mod = parent.rsplit('.', 1)[0] if parent in self.funcs and self.funcs[parent].cls is None else None
+            moved = [k for k in self.funcs if k.endswith('.<locals>.' + name) and k.count('.<locals>.') == 1
+                     and k.split('.<locals>.')[0].rsplit('.', 1)[1] not in known_names()
+                     and (mod is None or k.startswith(mod + '.'))]
+            if len(moved) == 1:
+                return self.funcs[moved[0]]
         raise AnalysisError(f'anchor function not found: {qualname}')
 
     def has_func(self, qualname):
